@@ -2515,11 +2515,13 @@ impl Formatter {
   pub fn swizzle(&mut self, node: &Vec<Identifier>) -> String {
     let mut src = "".to_string();
     for (i, ident) in node.iter().enumerate() {
-      let s = self.dot(ident);
       if i == 0 {
-        src = format!("{}", s);
+        src = self.dot(ident);
+      } else if self.html {
+        src = format!("{},<span class=\"mech-dot\">{}</span>", src, ident.to_string());
       } else {
-        src = format!("{},{}", src, s);
+        // only the first name of a swizzle carries the dot: `a.x,y`
+        src = format!("{},{}", src, ident.to_string());
       }
     }
     if self.html {
